@@ -3,6 +3,7 @@
 //! once against the object-safe `DynSubject`.
 
 pub mod alloc;
+pub mod audit;
 pub mod checks;
 pub mod faults;
 pub mod report;
